@@ -563,19 +563,24 @@ pub fn c08_flatten() -> i32 {
     let two = |p: &str, a: u32, an: &str, b: u32, bn: &str| ty(p, vec![], composite(vec![field(Some("a"), a, Some(an)), field(Some("b"), b, Some(bn))]));
     // order 0: ids 0 u8, 1 LeafA, 2 LeafB, 3 Shared, 4 A{LeafA, Shared}, 5 B{LeafB, Shared}, 6 Other
     // order 1: ids 0 u8, 1 LeafA, 2 LeafB, 3 Shared, 4 B{LeafB, Shared}, 5 A{LeafA, Shared}, 6 Other
+    // order 2: a Top type that reaches EVERY type of the registry comes first: 0 Top{A, B, Other}, 1 LeafA, 2 LeafB, 3 Shared, 4 A, 5 B, 6 Other, 7 u8
+    let three = |p: &str, a: u32, b: u32, c: u32| ty(p, vec![], composite(vec![field(Some("a"), a, Some("A")), field(Some("b"), b, Some("B")), field(Some("c"), c, Some("Other"))]));
+    let leaf7 = |p: &str| ty(p, vec![], composite(vec![field(Some("x"), 7, Some("u8"))]));
     let regs = [
         registry(vec![ty("", vec![], prim(TypeDefPrimitive::U8)), leaf("m::LeafA"), leaf("m::LeafB"), leaf("m::Shared"), two("m::A", 1, "LeafA", 3, "Shared"), two("m::B", 2, "LeafB", 3, "Shared"), leaf("m::Other")]),
         registry(vec![ty("", vec![], prim(TypeDefPrimitive::U8)), leaf("m::LeafA"), leaf("m::LeafB"), leaf("m::Shared"), two("m::B", 2, "LeafB", 3, "Shared"), two("m::A", 1, "LeafA", 3, "Shared"), leaf("m::Other")]),
+        registry(vec![three("m::Top", 4, 5, 6), leaf7("m::LeafA"), leaf7("m::LeafB"), leaf7("m::Shared"), two("m::A", 1, "LeafA", 3, "Shared"), two("m::B", 2, "LeafB", 3, "Shared"), leaf7("m::Other"), ty("", vec![], prim(TypeDefPrimitive::U8))]),
     ];
-    let names = ["m::LeafA", "m::LeafB", "m::Shared", "m::A", "m::B", "m::Other"];
-    let reach: BTreeMap<&str, Vec<&str>> = [("m::A", vec!["m::A", "m::LeafA", "m::Shared"]), ("m::B", vec!["m::B", "m::LeafB", "m::Shared"]), ("m::Shared", vec!["m::Shared"])].into_iter().collect();
+    let names = ["m::LeafA", "m::LeafB", "m::Shared", "m::A", "m::B", "m::Other", "m::Top"];
+    let reach: BTreeMap<&str, Vec<&str>> = [("m::A", vec!["m::A", "m::LeafA", "m::Shared"]), ("m::B", vec!["m::B", "m::LeafB", "m::Shared"]), ("m::Shared", vec!["m::Shared"]),
+        ("m::Top", vec!["m::Top", "m::A", "m::B", "m::Other", "m::LeafA", "m::LeafB", "m::Shared"])].into_iter().collect();
     let tp = |s: &str| -> syn::TypePath { syn::parse_str(s).unwrap() };
     let p = |s: &str| -> syn::Path { syn::parse_str(s).unwrap() };
     let at = |s: &str| -> syn::Attribute { let id: syn::Ident = syn::parse_str(s).unwrap(); syn::parse_quote!(#[#id]) };
     let show = |t: &dyn quote::ToTokens| t.to_token_stream().to_string().replace(' ', "");
     // registrations: (kind, path, name, recursive)   kind 0 derive, 1 attribute
-    let regsn: [(u8, &str, &str, bool); 7] = [(0, "m::A", "DA", true), (0, "m::B", "DB", true), (1, "m::A", "ra", true), (0, "m::LeafB", "S", false),
-        (0, "m::A", "S2", false), (0, "m::Shared", "DS", true), (1, "m::B", "sb", false)];
+    let regsn: [(u8, &str, &str, bool); 8] = [(0, "m::A", "DA", true), (0, "m::B", "DB", true), (1, "m::A", "ra", true), (0, "m::LeafB", "S", false),
+        (0, "m::A", "S2", false), (0, "m::Shared", "DS", true), (1, "m::B", "sb", false), (0, "m::Top", "DT", true)];
     let mut tried = 0;
     let mut found = None;
     'o: for (oi, reg) in regs.iter().enumerate() {
@@ -587,11 +592,12 @@ pub fn c08_flatten() -> i32 {
             let mut want_a: BTreeMap<&str, BTreeSet<String>> = names.iter().map(|n| (*n, BTreeSet::new())).collect();
             for (i, (kind, path, name, rec)) in regsn.iter().enumerate() {
                 if mask & (1 << i) == 0 { continue; }
+                if *path == "m::Top" && oi != 2 { continue; }
                 if *kind == 0 { d.add_derives_for(tp(path), [p(name)], *rec); } else { d.add_attributes_for(tp(path), [at(name)], *rec); }
                 let targets: Vec<&str> = if *rec { reach[path].clone() } else { vec![*path] };
                 for t in targets { if *kind == 0 { want_d.get_mut(t).unwrap().insert(name.to_string()); } else { want_a.get_mut(t).unwrap().insert(format!("#[{name}]")); } }
             }
-            let describe = || format!("registry order {oi} (0: A before B, 1: B before A; A = {{LeafA, Shared}}, B = {{LeafB, Shared}}), registrations {:?}",
+            let describe = || format!("registry order {oi} (0: A before B, 1: B before A, 2: Top = {{A, B, Other}} first; A = {{LeafA, Shared}}, B = {{LeafB, Shared}}), registrations {:?}",
                 regsn.iter().enumerate().filter(|(i, _)| mask & (1 << i) != 0).map(|(_, r)| *r).collect::<Vec<_>>());
             let flat = match panic::catch_unwind(panic::AssertUnwindSafe(|| d.flatten_recursive_derives(reg))) {
                 Ok(Ok(f)) => f,
@@ -599,6 +605,7 @@ pub fn c08_flatten() -> i32 {
                 Err(_) => { found = Some((describe(), "flatten panicked".into())); break 'o; }
             };
             for n in names {
+                if n == "m::Top" && oi != 2 { continue; }
                 let r = flat.resolve(&tp(n));
                 let gd: BTreeSet<String> = r.derives().iter().map(|x| show(x)).collect();
                 let ga: BTreeSet<String> = r.attributes().iter().map(|x| show(x)).collect();
